@@ -39,6 +39,13 @@ Theorem C15_pheno_roundtrip :
 Proof. exact pheno_roundtrip_lemma. Qed.
 Print Assumptions C15_pheno_roundtrip.
 
+(* the codec contract of C15_pheno_roundtrip is satisfiable (the instance the
+   correspondence evaluates: a field is its text plus the float64 it denotes) *)
+Example C15_codec_contract_inhabited :
+  (forall x, cparse (cfmt x) = Some x) /\ (forall s, ctext (cword s) = s).
+Proof. split; reflexivity. Qed.
+Print Assumptions C15_codec_contract_inhabited.
+
 (* row skipping never shifts other rows or columns: for every file body without
    blank lines and every sample filter, the records are exactly the selected rows
    whose cells all parse - in file order, each with its own first field - and one
